@@ -198,6 +198,65 @@ KERNELS += [
          + PDS_RULES("s", 0, 2, 2, (1, 3), True) + PATHRULES(0, 1, 0, 0)),
 ]
 
+KERNELS += [
+    dict(name="K_pdm_get_bin_value", file=PDM, cxx_name="ProjDataInMemory::get_bin_value", func=r"ProjDataInMemory::get_bin_value\(Bin& bin\)",
+         c_header="float K_pdm_get_bin_value(const struct PD* self, const struct Bin* bin)", loops=0,
+         rules=[(r"return buffer\[this->get_index\(bin\)\];", "{ const long K_o = K_pdm_get_index(self, bin); K_RETURN_IF_ERROR(0.F); BUF_ONE_FROM(self, K_o); return 0.F; }", 1)]),
+    dict(name="K_pdm_set_bin_value", file=PDM, cxx_name="ProjDataInMemory::set_bin_value", func=r"ProjDataInMemory::set_bin_value\(const Bin& bin\)",
+         c_header="void K_pdm_set_bin_value(const struct PD* self, const struct Bin* bin)", loops=0,
+         rules=[(r"buffer\[this->get_index\(bin\)\] = bin\.get_bin_value\(\);", "{ const long K_o = K_pdm_get_index(self, bin); K_RETURN_IF_ERROR(); BUF_ONE_TO(self, K_o, bin); }", 1)]),
+    dict(name="K_pdm_set_segment", file=PDM, cxx_name="ProjDataInMemory::set_segment(const SegmentBySinogram<float>&) (from 'const int segment_num = ...')",
+         func=r"ProjDataInMemory::set_segment\(const SegmentBySinogram<float>& segmentbysinogram_v\)",
+         span=(r"const int segment_num = segmentbysinogram_v\.get_segment_num\(\);", r"return Succeeded::yes;"),
+         c_header="int K_pdm_set_segment(const struct PD* self, const int v_segment_num, const int v_timing_pos_num)", loops=0,
+         rules=[(r"segmentbysinogram_v\.get_(segment|timing_pos)_num\(\)", r"v_\1_num", 2),
+                (r"detail::copy_data_to_buffer\(this->buffer, segmentbysinogram_v, this->get_index\(bin\)\);",
+                 "{ const long K_o = K_pdm_get_index(self, &bin); K_RETURN_IF_ERROR(0); BUF_SEG_TO(self, K_o, bin.segment_num); }", 1)] + PATHRULES(1, 1, 0, 1)),
+    dict(name="K_pdm_get_segment", file=PDM, cxx_name="ProjDataInMemory::get_segment_by_sinogram",
+         func=r"ProjDataInMemory::get_segment_by_sinogram\(const int segment_num, const int timing_pos_num\) const",
+         c_header="void K_pdm_get_segment(const struct PD* self, const int segment_num, const int timing_pos_num)", loops=0,
+         rules=[(r"SegmentBySinogram<float> segment\(proj_data_info_sptr, bin\);", "", 1), (r"return segment;", "return;", 1),
+                (r"detail::copy_data_from_buffer\(this->buffer, segment, this->get_index\(bin\)\);",
+                 "{ const long K_o = K_pdm_get_index(self, &bin); K_RETURN_IF_ERROR(); BUF_SEG_FROM(self, K_o, bin.segment_num); }", 1)] + PATHRULES(1, 1, 0, 0)),
+]
+
+# ---- ProjData base class: the loops that build the larger access paths out of set_viewgram / get_viewgram / set_segment ----
+PD = "src/buildblock/ProjData.cxx"
+VIEWS = [(r"get_(min|max)_view_num\(\)", r"self->\1_view", 2)]
+SUCC = [(r"Succeeded::yes", "1", None), (r"Succeeded::no", "0", None)]
+KERNELS += [
+    dict(name="K_pd_set_segment_by_sinogram", file=PD, cxx_name="ProjData::set_segment(const SegmentBySinogram<float>&)", func=r"ProjData::set_segment\(const SegmentBySinogram<float>& segment\)",
+         c_header="int K_pd_set_segment_by_sinogram(const struct PD* self)", loops=1, contract_alias="K_pd_set_segment",
+         rules=VIEWS + [(r"set_viewgram\(segment\.get_viewgram\(view_num\)\)", "K_call_set_viewgram(K_segment_get_viewgram(view_num))", 1)] + SUCC),
+    dict(name="K_pd_set_segment_by_view", file=PD, cxx_name="ProjData::set_segment(const SegmentByView<float>&)", func=r"ProjData::set_segment\(const SegmentByView<float>& segment\)",
+         c_header="int K_pd_set_segment_by_view(const struct PD* self)", loops=1, contract_alias="K_pd_set_segment",
+         rules=VIEWS + [(r"set_viewgram\(segment\.get_viewgram\(view_num\)\)", "K_call_set_viewgram(K_segment_get_viewgram(view_num))", 1)] + SUCC),
+    dict(name="K_pd_get_segment_by_sinogram", file=PD, cxx_name="ProjData::get_segment_by_sinogram", func=r"ProjData::get_segment_by_sinogram\(const int segment_num, const int timing_pos\) const",
+         c_header="void K_pd_get_segment_by_sinogram(const struct PD* self, const int segment_num, const int timing_pos)", loops=1, contract_alias="K_pd_get_segment",
+         rules=VIEWS + [(r"SegmentBySinogram<float> segment = proj_data_info_sptr->get_empty_segment_by_sinogram\(segment_num, false, timing_pos\);", "", 1),
+                        (r"segment\.set_viewgram\(get_viewgram\((\w+), (\w+), false, (\w+)\)\);", r"K_fetch_viewgram(\1, \2, \3);", 1), (r"return segment;", "return;", 1)]),
+    dict(name="K_pd_get_segment_by_view", file=PD, cxx_name="ProjData::get_segment_by_view", func=r"ProjData::get_segment_by_view\(const int segment_num, const int timing_pos\) const",
+         c_header="void K_pd_get_segment_by_view(const struct PD* self, const int segment_num, const int timing_pos)", loops=1, contract_alias="K_pd_get_segment",
+         rules=VIEWS + [(r"SegmentByView<float> segment = proj_data_info_sptr->get_empty_segment_by_view\(segment_num, false, timing_pos\);", "", 1),
+                        (r"segment\.set_viewgram\(get_viewgram\((\w+), (\w+), false, (\w+)\)\);", r"K_fetch_viewgram(\1, \2, \3);", 1), (r"return segment;", "return;", 1)]),
+    dict(name="K_pd_set_related_viewgrams", file=PD, cxx_name="ProjData::set_related_viewgrams", func=r"ProjData::set_related_viewgrams\(const RelatedViewgrams<float>& viewgrams\)",
+         c_header="int K_pd_set_related_viewgrams(const int n_viewgrams)", loops=1,
+         rules=[(r"RelatedViewgrams<float>::const_iterator r_viewgrams_iter = viewgrams\.begin\(\);", "int r_viewgrams_iter = 0;", 1), (r"viewgrams\.end\(\)", "n_viewgrams", 1),
+                (r"set_viewgram\(\*r_viewgrams_iter\)", "K_call_set_viewgram(r_viewgrams_iter)", 1)] + SUCC),
+    dict(name="K_pd_fill_value", file=PD, cxx_name="ProjData::fill(const float)", func=r"ProjData::fill\(const float value\)",
+         c_header="void K_pd_fill_value(const struct PD* self)", loops=2,
+         rules=[(r"this->get_(min|max)_tof_pos_num\(\)", r"self->\1_tof", 2), (r"this->get_(min|max)_segment_num\(\)", r"self->\1_seg", 2),
+                (r"SegmentByView<float> segment\(this->get_empty_segment_by_view\((\w+), false, (\w+)\)\);", r"const int segment_seg = \1, segment_tof = \2;", 1),
+                (r"segment\.fill\(value\);", "", 1), (r"this->set_segment\(segment\)", "K_call_set_segment(segment_seg, segment_tof)", 1),
+                (r'\berror\("[^"]*"\);', "K_THROW();", 1)] + SUCC),
+    dict(name="K_pd_fill_from", file=PD, cxx_name="ProjData::fill(const ProjData&): the copying loops (statement kernel)", func=r"ProjData::fill\(const ProjData& proj_data\)",
+         span=(r"for \(int segment_num = this->get_min_segment_num\(\)", r'error\("Error setting segment of projection data"\);\s*\}\s*\}'),
+         c_header="void K_pd_fill_from(const struct PD* self)", loops=2,
+         rules=[(r"this->get_(min|max)_tof_pos_num\(\)", r"self->\1_tof", 2), (r"this->get_(min|max)_segment_num\(\)", r"self->\1_seg", 2),
+                (r"this->set_segment\(proj_data\.get_segment_by_view\((\w+), (\w+)\)\)", r"K_call_set_segment(\1, \2)", 1),
+                (r'\berror\("[^"]*"\);', "K_THROW();", 1)] + SUCC),
+]
+
 CHK = ["--signed-overflow-check", "--div-by-zero-check", "--bounds-check", "--pointer-check", "--conversion-check"]
 VT = {"quick": [(1, 2), (3, 5), (4, 4), (8, 16)],
       "thorough": [(v, t) for v in range(1, 9) for t in range(1, 9)] + [(8, 16), (16, 8), (12, 20), (32, 64), (96, 128)]}
@@ -235,9 +294,13 @@ def jobs(tier, gen_dir):
             d2["C02_E"] = E
             J("K_pds_get_offset/V=%d/T=%d/E=%d" % (V, T, E), "h_K_pds_get_offset", enforce="K_pds_get_offset", repl=["K_find_int"], lc=True, defs=d2,
               kernels=["K_pds_get_offset"], params={"num_views": V, "num_tangential_poss": T, "bytes_per_element": E}, shards=SH)
+    for k in ("K_pd_set_segment_by_sinogram", "K_pd_set_segment_by_view", "K_pd_get_segment_by_sinogram", "K_pd_get_segment_by_view", "K_pd_set_related_viewgrams",
+              "K_pd_fill_value", "K_pd_fill_from"):
+        J(k, "h_" + k, enforce=k, lc=True, kernels=[k])
     for V, T in PATH_VT[tier]:
         d = {"C02_V": V, "C02_T": T}
-        for k, lc in (("K_pdm_set_viewgram", True), ("K_pdm_get_viewgram", True), ("K_pdm_set_sinogram", False), ("K_pdm_get_sinogram", False)):
+        for k, lc in (("K_pdm_set_viewgram", True), ("K_pdm_get_viewgram", True), ("K_pdm_set_sinogram", False), ("K_pdm_get_sinogram", False),
+                      ("K_pdm_get_bin_value", False), ("K_pdm_set_bin_value", False), ("K_pdm_set_segment", False), ("K_pdm_get_segment", False)):
             J("%s/V=%d/T=%d" % (k, V, T), "h_" + k, enforce=k, repl=["K_pdm_get_index"], lc=lc, defs=d, kernels=[k], params={"num_views": V, "num_tangential_poss": T}, shards=SH + 2,
               timeout=900 if tier == "quick" else 2400)
     for V, T in PATH_VT[tier]:
@@ -263,7 +326,8 @@ def jobs(tier, gen_dir):
                        defines={"CANARY_" + k: None, "C02_V": 2, "C02_T": 2, "C02_E": 2}, expect_fail=r"%s\.postcondition" % k, no_base_flags=True, timeout=300, object_bits=10,
                        backend="kissat"))
     # vacuity canaries of the access-path kernels (their preconditions must be satisfiable)
-    for k, rp in (("K_pdm_set_viewgram", ["K_pdm_get_index"]), ("K_pdm_get_viewgram", ["K_pdm_get_index"]), ("K_pdm_set_sinogram", ["K_pdm_get_index"]),
+    for k, rp in (("K_pd_set_segment_by_view", []), ("K_pd_get_segment_by_view", []), ("K_pd_set_related_viewgrams", []), ("K_pd_fill_value", []), ("K_pd_fill_from", []),
+                  ("K_pdm_set_viewgram", ["K_pdm_get_index"]), ("K_pdm_get_viewgram", ["K_pdm_get_index"]), ("K_pdm_set_sinogram", ["K_pdm_get_index"]),
                   ("K_pdm_get_sinogram", ["K_pdm_get_index"]), ("K_pds_set_bin_value", ["K_pds_get_offset"]), ("K_pds_set_viewgram", ["K_pds_get_offset"]),
                   ("K_pds_set_sinogram", ["K_pds_get_offset"]), ("K_pds_set_segment_by_sinogram", ["K_pds_get_offset", "K_pds_set_segment_by_view"]),
                   ("K_pds_set_segment_by_view", ["K_pds_get_offset", "K_pds_set_segment_by_sinogram"])):
